@@ -301,6 +301,14 @@ def gen_scenario(rng, prof=None, force_selflock=None):
     if rng.random() < p.get('p_forget_load', 0.05):
         # the load function is forgotten at first: the first call is rejected ("no external torque"), then the load is assigned
         spec['forget_load'] = True          # handled by sim/build.py right after the solver exists
+    if not p.get('_nested') and rng.random() < p.get('p_bystander', 0.08):
+        # another independent model is advanced between this model's operations (sim/build.py 'bystander')
+        other = gen_scenario(rng, dict(prof or {}, _nested=True, p_continue=1.0, n_lo=4, n_hi=12), None)
+        other.pop('_ref', None)
+        k_ = 1
+        while k_ <= len(sched):
+            sched.insert(k_, {'op': 'bystander', 'spec': other})
+            k_ += 2
     if rng.random() < p.get('p_inplace_args', 0.15):
         # the step / duration objects handed to run() went through an in-place conversion first (objects with a history)
         for op_ in sched:
